@@ -176,6 +176,10 @@ pub struct Net {
     pub next_id: usize,
     /// every datagram ever put on the wire by a node (the tap)
     pub tap: Vec<Dgram>,
+    /// slow network sends: (node, ordinal of the send call of that node (0-based), duration in ms) - the call
+    /// returns, and the datagram reaches the wire, only after that time
+    pub slow: Vec<(usize, usize, u64)>,
+    pub n_send_calls: [usize; MAX_NODES],
 }
 
 pub type NetRef = Rc<RefCell<Net>>;
@@ -218,10 +222,21 @@ pub struct Rx(pub NetRef, pub usize);
 
 impl NetworkSend for Tx {
     async fn send_to(&mut self, data: &[u8], a: Address) -> Result<(), Error> {
+        let delay = {
+            let mut n = self.0.borrow_mut();
+            let ord = n.n_send_calls[self.1];
+            n.n_send_calls[self.1] += 1;
+            n.slow.iter().find(|(node, o, _)| *node == self.1 && *o == ord).map(|x| x.2)
+        };
+        // the time stamp of a datagram is when the stack handed it to the network (a slow send returns later)
+        let t_call = now_ms();
+        if let Some(ms) = delay {
+            embassy_time::Timer::after_millis(ms).await;
+        }
         let mut n = self.0.borrow_mut();
         let id = n.next_id;
         n.next_id += 1;
-        let d = Dgram { id, seq: next_seq(), src: self.1, dst: idx(&a), data: data.to_vec(), t_ms: now_ms() };
+        let d = Dgram { id, seq: next_seq(), src: self.1, dst: idx(&a), data: data.to_vec(), t_ms: t_call };
         n.tap.push(d.clone());
         n.wire.push_back(d);
         Ok(())
